@@ -92,7 +92,9 @@ def materialise(sc, root, generic, plain):
         os.makedirs(d)
     argv_files = []
     for name, v in sc.files:
-        if v not in ("!", "+"):
+        if v == "@":
+            os.symlink(name, os.path.join(src, name))          # a link to itself: stat fails with ELOOP, not ENOENT
+        elif v not in ("!", "+"):
             with open(os.path.join(src, name), "wb") as fh:
                 fh.write(unhex(v))
         argv_files.append("../src/" + name)
@@ -433,3 +435,8 @@ def run_c07(ctx):
 
 def run_c18(ctx):
     return run(ctx, "C18")
+
+
+def run_c11(ctx):
+    """C11, compiler half: malformed generator replies through the real binary (scenarios from `drv gen C11p`)"""
+    return run(ctx, "C11p")
